@@ -583,6 +583,8 @@ def normalise(program):
         try:
             stats["annotations_stripped"] += inline.strip_annotations(f.node)
             stats["declared_type_tests_decided"] = stats.get("declared_type_tests_decided", 0) + inline.fold_declared_types(f.node)
+            if any(isinstance(n_, ast.If) and isinstance(n_.test, ast.Constant) and isinstance(n_.test.value, bool) for n_ in ast.walk(f.node)):
+                inline.prune_decided(f.node)  # `if False:` left by a constant argument of an inlined helper
             stats["assignments_simplified"] += inline.simplify_assignments(f.node)
             stats["conditionals_lifted"] += inline.lift_conditionals(f.node)
             stats["joins_threaded"] += inline.thread_joins(f.node)
